@@ -129,10 +129,16 @@ class Tracer:
                     return called
                 return res
             return w
+        # every module of skops.io (whatever it is called) and every global that IS one of the two resolvers (whatever name
+        # it was imported under)
+        import sys as _sys
+        mods = list(dict.fromkeys(mods + [m for n, m in sorted(_sys.modules.items())
+                                          if n.startswith("skops.io.") and m is not None and m is not _utils and ".tests" not in n]))
+        resolvers = {id(getattr(_utils, fn)): getattr(_utils, fn) for fn in ("gettype", "_import_obj") if hasattr(_utils, fn)}
         for m in mods:
-            for fn in ("gettype", "_import_obj"):
-                if fn in vars(m):
-                    setattr(m, fn, wrap(getattr(_utils, fn)))
+            for gname, gval in list(vars(m).items()):
+                if id(gval) in resolvers:
+                    setattr(m, gname, wrap(resolvers[id(gval)]))
         orig_import_module = importlib.import_module
 
         def import_module(name, package=None):
@@ -148,8 +154,17 @@ class Tracer:
                     tr.events.append(("M", "operator", name))
                 else:
                     import sys as _s
-                    f = _s._getframe(1)
-                    if f.f_code.co_name == "_construct":
+                    # an attribute fetched while a node is being constructed: the calling frame or one of its near callers
+                    # is a _construct method (helpers extracted from it still count)
+                    f, hit = _s._getframe(1), False
+                    for _ in range(4):
+                        if f is None:
+                            break
+                        if f.f_code.co_name == "_construct":
+                            hit = True
+                            break
+                        f = f.f_back
+                    if hit:
                         tr.events.append(("A", name))
             return real_getattr(obj, name, *default)
         _general.getattr = traced_getattr
